@@ -49,7 +49,7 @@ def check_history(case, ev):
     outs = []
     for a, b in zip([0] + cuts, cuts + [len(lines)]):
         # several anonymize_io calls on ONE FileAnonymizer (library use): still one run
-        out, exc = guarded(core.run_io, fa, "".join(l[0] + "\n" for l in lines[a:b]))
+        out, exc = guarded(core.run_io, fa, "".join(l[0] + "\n" for l in lines[a:b]), bool(case.get("nonl")))
         if exc is not None:
             return core.exc_finding(exc, case, "run/")
         outs += out.split("\n")[:-1]
@@ -251,7 +251,7 @@ def _case(draw, max_lines=30):
             }
         )
     calls = draw(st.lists(st.integers(1, max(1, len(lines) - 1)), max_size=3)) if draw(st.integers(0, 2)) == 0 else []
-    return {"salt": draw(st.sampled_from(["Tsalt", "", "s", "_x", "QzF", "iH"])), "lines": lines, "calls": calls}
+    return {"salt": draw(st.sampled_from(["Tsalt", "", "s", "_x", "QzF", "iH"])), "lines": lines, "calls": calls, "nonl": draw(st.integers(0, 3)) == 0}
 
 
 @st.composite
